@@ -730,7 +730,8 @@ inductive HostDefect (subnets : List Nat) (osl svl prl : List Y) (sens : List ((
   | valueNotNumeric (cm : List (Y × Y)) (x : Y) (h : getKey cm "value" = some x)
       (hx : x.toRat? = none) : HostDefect subnets osl svl prl sens key (.map cm)
   | valueContradictsSensitive (cm : List (Y × Y)) (x : Y) (q sv : Rat) (h : getKey cm "value" = some x)
-      (hx : x.toRat? = some q) (hs : sens.lookup (pairOfKey key) = some sv) (hne : q ≠ sv) :
+      (hx : x.toRat? = some q) (hs : sens.lookup (pairOfKey key) = some sv) (hne : isclose q sv = false)
+      (hk : ∀ a b, keyPair key = some (a, b) → 0 ≤ a ∧ 0 ≤ b) :
       HostDefect subnets osl svl prl sens key (.map cm)
 
 theorem hostConfigOk_false_of_defect (subnets : List Nat) (osl svl prl : List Y)
@@ -793,9 +794,20 @@ theorem hostConfigOk_false_of_defect (subnets : List Nat) (osl svl prl : List Y)
     | valueNotNumeric cm x h hx =>
       simp only [hostConfigOk, Bool.and_eq_true, h, hx] at hok
       have := hok.2; simp at this
-    | valueContradictsSensitive cm x q sv h hx hs hne =>
-      simp only [hostConfigOk, Bool.and_eq_true, h, hx, hs] at hok
-      have := hok.2; simp at this; exact hne this
+    | valueContradictsSensitive cm x q sv h hx hs hne hk =>
+      simp only [hostConfigOk, Bool.and_eq_true, h, hx] at hok
+      have := hok.2
+      cases hkp : keyPair key with
+      | none => simp [hkp] at this
+      | some ab =>
+        obtain ⟨a, b⟩ := ab
+        obtain ⟨ha, hb⟩ := hk a b hkp
+        have hp : pairOfKey key = (a.toNat, b.toNat) := by
+          cases key <;> simp [keyPair] at hkp
+          simp [pairOfKey, hkp]
+        rw [hp] at hs
+        have hn : ¬ (a < 0 ∨ b < 0) := by omega
+        simp [hkp, hn, hs, hne] at this
 
 /-- a host configuration that names an unknown or duplicated service, process or OS, carries a
 malformed host firewall or a non-numeric value, or contradicts the value declared for a sensitive
